@@ -168,6 +168,17 @@ class SymEnv(object):
     def get(self, name):
         return self.ns[name]
 
+    def patch_attr(self, obj, name, fn):
+        setattr(obj, name, fn)
+
+    def own(self, a, name):
+        """mark an array as caller-owned: any in-place write to its storage is recorded"""
+        a.st.owner = name
+        return a
+
+    def owned_intact(self):
+        return not any(e[0] == 'write-to-owned' for e in self.p.events if isinstance(e, tuple))
+
     def hooks(self, rng=None, la=None, log=None, warn=None):
         shim.HOOKS.rng = rng
         shim.HOOKS.la = la
@@ -379,8 +390,32 @@ class ConcEnv(object):
     def get(self, name):
         return self.ns[name]
 
+    def own(self, a, name):
+        if not hasattr(self, '_owned'):
+            self._owned = []
+        self._owned.append((a, a.copy(), name))
+        return a
+
+    def owned_intact(self):
+        return all(_np.array_equal(a, c, equal_nan=True) for a, c, _ in getattr(self, '_owned', []))
+
+    def patch_attr(self, obj, name, fn):
+        self.patched.append((obj, name, obj.__dict__[name] if name in getattr(obj, '__dict__', {}) else getattr(obj, name)))
+        setattr(obj, name, fn)
+
     def hooks(self, rng=None, la=None, log=None, warn=None):
         self._rng = rng
+        if la is not None:
+            import scipy.linalg as _sla
+            import scipy.stats as _st
+            for modobj, nm, key in ((_sla, 'qr', 'qr'), (_st, 'linregress', 'linregress')):
+                orig = getattr(modobj, nm)
+                self.patched.append((modobj, nm, orig))
+
+                def wrapped(*a, _orig=orig, _key=key, **k):
+                    r = la(_key, a, k)
+                    return _orig(*a, **k) if r is NotImplemented else r
+                setattr(modobj, nm, wrapped)
         if rng is not None:
             r = _np.random
             self.patched.append((r, 'normal', r.normal))
